@@ -197,6 +197,10 @@ func (ctrler *GovCtrler) ValidateTrx(ctx *ctrlertypes.TrxContext) xerrors.XError
 				if err := json.Unmarshal(option, checkGovParams); err != nil {
 					return xerrors.ErrInvalidTrxPayloadParams.Wrap(err)
 				}
+				// the option must also parse in the form in which applyProposals will read it
+				if err := json.Unmarshal(hotfixOption(option), checkGovParams); err != nil {
+					return xerrors.ErrInvalidTrxPayloadParams.Wrap(err)
+				}
 			}
 		}
 		endVotingHeight := txpayload.StartVotingHeight + txpayload.VotingPeriodBlocks
@@ -410,16 +414,7 @@ func (ctrler *GovCtrler) applyProposals(height int64) ([]abytes.HexBytes, xerror
 				case proposal.PROPOSAL_GOVPARAMS:
 					newGovParams := &ctrlertypes.GovParams{}
 
-					//
-					// hotfix
-					strOpt := string(prop.MajorOption.Option())
-					if strings.HasSuffix(strOpt, `""}`) {
-						strOpt = strings.ReplaceAll(strOpt, `""}`, `"}`)
-					}
-					//
-					//
-
-					if err := json.Unmarshal([]byte(strOpt), newGovParams); err != nil {
+					if err := json.Unmarshal(hotfixOption(prop.MajorOption.Option()), newGovParams); err != nil {
 						ctrler.logger.Error("Apply proposal", "error", err, "option", string(prop.MajorOption.Option()))
 						return xerrors.From(err)
 					}
@@ -538,3 +533,14 @@ var _ ctrlertypes.ILedgerHandler = (*GovCtrler)(nil)
 var _ ctrlertypes.ITrxHandler = (*GovCtrler)(nil)
 var _ ctrlertypes.IBlockHandler = (*GovCtrler)(nil)
 var _ ctrlertypes.IGovHandler = (*GovCtrler)(nil)
+
+// hotfixOption returns the option text as applyProposals reads it: an option ending in `""}` is
+// rewritten (hotfix). ValidateTrx checks the rewritten form too, so that an option admitted by the
+// validation cannot fail to parse when the proposal is applied (EndBlock would return an error).
+func hotfixOption(option []byte) []byte {
+	strOpt := string(option)
+	if strings.HasSuffix(strOpt, `""}`) {
+		strOpt = strings.ReplaceAll(strOpt, `""}`, `"}`)
+	}
+	return []byte(strOpt)
+}
